@@ -5,11 +5,12 @@ import (
 	"go/ast"
 	"go/token"
 	"go/types"
+	"strings"
 )
 
 func init() {
 	register("C35", propMeta{
-		Explanation:  "(R1) SessionStore.ValidateToken: every success return must be dominated by a lookup of the presented token in the session store that found it (a token revoked or rotated away is no longer there); (R2) every call of signAccessToken passes an expiry that derives from the current time plus the configured TTL, never a stored timestamp, and the stored record's ExpiresAt is the same expression; (R3) parseAndVerifySignedAccessToken returns claims only after hmac.Equal accepted the signature computed with the server secret over header.payload and after the exp claim was checked against the clock; Refresh rejects unknown and expired refresh tokens, removes the old access and refresh tokens before committing, and RevokeToken removes both tokens of the session.",
+		Explanation:  "(R1) SessionStore.ValidateToken: every success return must be dominated by a lookup of the presented token in the session store that found it (a token revoked or rotated away is no longer there); (R2) every call of signAccessToken passes an expiry that derives from the current time plus the configured TTL, never a stored timestamp, and the stored record's ExpiresAt is the same expression; (R3) parseAndVerifySignedAccessToken returns claims only after hmac.Equal accepted the signature computed with the server secret over header.payload and after the exp claim was checked against the clock; Refresh rejects unknown and expired refresh tokens, removes the old access and refresh tokens before committing, and RevokeToken removes both tokens of the session. (R4) a session record is stored under exactly the two tokens it names (CreateSession, Refresh): revocation and rotation delete by the names in the record.",
 		DoesNotCover: "Strength of the secret, the HTTP layer's use of these functions, and clock skew.",
 	}, runC35)
 }
@@ -236,4 +237,91 @@ func runC35(c *Ctx) {
 		c.Check(n == 2, r3, "RevokeToken: removes the session's access and refresh tokens", f.Decl.Pos(), "both removed", fmt.Sprintf("%d of the two tokens removed", n), nil)
 		c.Offences(g, offs, r3, "RevokeToken: removal is committed", f.Decl.Pos(), "Commit follows the removals", "revocation can return without committing")
 	}
+	r4 := c.Rule("R4", "a session record is stored under exactly the two tokens it names: in CreateSession and Refresh the record handed to store.Add has Token and RefreshToken set to the very values used as the keys of the two Adds (revocation and rotation delete by the names in the record)", 2)
+	for _, k := range []string{pkg + ".SessionStore.CreateSession", pkg + ".SessionStore.Refresh"} {
+		f := w.Fn(k)
+		c.Analysed(f)
+		info := f.Pkg.TypesInfo
+		tokF := w.Field(pkg, "SessionRecord", "Token")
+		refF := w.Field(pkg, "SessionRecord", "RefreshToken")
+		// Adds: store.Add(ctx, key, rec)
+		var keys []types.Object
+		var recVar types.Object
+		okShape := true
+		for _, cs := range w.Sites(f) {
+			if !strings.HasSuffix(cs.Key, ".Add") || len(cs.Call.Args) != 3 {
+				continue
+			}
+			kid, ok1 := ast.Unparen(cs.Call.Args[1]).(*ast.Ident)
+			rid, ok2 := ast.Unparen(cs.Call.Args[2]).(*ast.Ident)
+			if !ok1 || !ok2 {
+				okShape = false
+				continue
+			}
+			keys = append(keys, info.Uses[kid])
+			if recVar != nil && recVar != info.Uses[rid] {
+				okShape = false
+			}
+			recVar = info.Uses[rid]
+		}
+		// values of the two fields of recVar
+		fieldVal := func(fld *types.Var) types.Object {
+			var val types.Object
+			n := 0
+			ast.Inspect(f.Body, func(x ast.Node) bool {
+				switch st := x.(type) {
+				case *ast.AssignStmt:
+					for i, l := range st.Lhs {
+						// rec := SessionRecord{...}
+						if id, ok := ast.Unparen(l).(*ast.Ident); ok && (info.Defs[id] == recVar || info.Uses[id] == recVar) && len(st.Rhs) == len(st.Lhs) {
+							if cl, ok := ast.Unparen(st.Rhs[i]).(*ast.CompositeLit); ok {
+								for _, el := range cl.Elts {
+									if kv, ok := el.(*ast.KeyValueExpr); ok {
+										if kid, ok := kv.Key.(*ast.Ident); ok && originOf(info.Uses[kid]) == types.Object(fld) {
+											n++
+											if vid, ok := ast.Unparen(kv.Value).(*ast.Ident); ok {
+												val = info.Uses[vid]
+											} else {
+												val = nil
+											}
+										}
+									}
+								}
+							}
+						}
+						// rec.F = v
+						if sel, ok := ast.Unparen(l).(*ast.SelectorExpr); ok && fieldOfSelector(info, sel) == fld && len(st.Rhs) == len(st.Lhs) {
+							if xid, ok := ast.Unparen(sel.X).(*ast.Ident); ok && info.Uses[xid] == recVar {
+								n++
+								if vid, ok := ast.Unparen(st.Rhs[i]).(*ast.Ident); ok {
+									val = info.Uses[vid]
+								} else {
+									val = nil
+								}
+							}
+						}
+					}
+				}
+				return true
+			})
+			if n != 1 {
+				return nil
+			}
+			return val
+		}
+		ok := okShape && recVar != nil && len(keys) == 2
+		detail := ""
+		if ok {
+			tv, rv := fieldVal(tokF), fieldVal(refF)
+			ok = tv != nil && rv != nil && tv != rv && ((tv == keys[0] && rv == keys[1]) || (tv == keys[1] && rv == keys[0]))
+			if !ok {
+				detail = fmt.Sprintf("record.Token=%v record.RefreshToken=%v, keys %v / %v", tv, rv, keys[0], keys[1])
+			}
+		} else {
+			detail = fmt.Sprintf("expected two store.Add(ctx, <var>, <record var>) calls, found %d", len(keys))
+		}
+		c.Check(ok, r4, shortKey(k)+": the record stored names the two keys it is stored under", f.Decl.Pos(), "Token and RefreshToken are the variables used as Add keys",
+			"the session record is stored under a token it does not name ("+detail+"): Refresh and RevokeToken delete the names recorded in the record, so the un-named token stays valid after rotation / logout", nil)
+	}
+
 }
